@@ -473,3 +473,105 @@ def ragged_sort_driver(run):
         except TypeError:
             ok, got = True, "TypeError (incomparable)"
         run.check([l], ok and plain(data) == before, expected="sorted or KeyError; items unchanged", got=[got, plain(data)], clause="sort is non-modifying")
+
+
+# ---- C16 ---------------------------------------------------------------------------------------------
+KEYV = [None, 0, 1]
+
+
+def keyed_lists(maxlen_, key="k"):
+    ds = [{key: v} for v in KEYV]
+    for n in range(maxlen_ + 1):
+        for combo in itertools.product(range(len(ds)), repeat=n):
+            yield [dict(ds[c], p=i) for i, c in enumerate(combo)]
+
+
+def lod_join_driver(name, kind, renamed=False):
+    @driver(name)
+    def _d(run):
+        ml_ = 3 if run.tier == "thorough" else 2
+        run.bound = f"pairs of lists of <= {ml_} items, key in {{None,0,1}} with duplicates, payload entries on both sides"
+        rk = "k2" if renamed else "k"
+        by = ("k", "k2") if renamed else "k"
+        gen = ((a, b) for a in keyed_lists(ml_) for b in keyed_lists(ml_, rk))
+        for a, b in run.inputs(gen):
+            b = [dict(x, q=100 + x["p"]) for x in b]
+            for x in b:
+                del x["p"]
+            A, Bl = mk(a), mk(b)
+            b_before = plain(Bl)
+            objs = list(A)
+
+            def first(i):
+                for j, y in enumerate(b):
+                    if y[rk] == a[i]["k"]:
+                        return j
+                return None
+            m = [first(i) for i in range(len(a))]
+            try:
+                import contextlib, io
+                with contextlib.redirect_stdout(io.StringIO()):
+                    if kind in ("left", "inner"):
+                        got = A.left_join(Bl, by) if kind == "left" else A.inner_join(Bl, by)
+                        keep = [i for i in range(len(a)) if kind == "left" or m[i] is not None]
+                        exp = [dict(a[i], **({k: v for k, v in b[m[i]].items() if k != rk} if m[i] is not None else {})) for i in keep]
+                        ok = plain(got) == exp and same_objects(got, [objs[i] for i in keep])
+                    elif kind in ("semi", "anti"):
+                        got = A.semi_join(Bl, by) if kind == "semi" else A.anti_join(Bl, by)
+                        keep = [i for i in range(len(a)) if (m[i] is not None) == (kind == "semi")]
+                        exp = [a[i] for i in keep]
+                        ok = plain(got) == exp and same_objects(got, [objs[i] for i in keep]) and plain(A) == a
+                    else:
+                        got = A.full_join(Bl, by)
+                        exp = "every left and right item present; merged pairs have equal keys"
+                        gp = plain(got)
+                        ok = all(any(g.get("p") == x["p"] and g.get("k") == x["k"] for g in gp) for x in a)
+                        ok = ok and all(any(g.get("q") == y["q"] for g in gp) for y in b)
+                        for g in gp:
+                            if "p" in g and "q" in g and g["p"] is not None and g["q"] is not None:
+                                x = [x for x in a if x["p"] == g["p"]][0]
+                                y = [y for y in b if y["q"] == g["q"]][0]
+                                ok = ok and x["k"] == y[rk]
+                        ok = ok and plain(A) == a
+                ok = ok and plain(Bl) == b_before
+                obs = plain(got)
+            except Exception as e:
+                ok, obs, exp = False, f"raised {type(e).__name__}: {e}", None
+            run.check([a, b], ok, expected=exp, got=obs, clause=f"{kind}_join")
+    return _d
+
+
+LP = "dataiter/list_of_dicts.py::ListOfDicts."
+lod_join_driver(LP + "left_join[same-named key]", "left")
+lod_join_driver(LP + "left_join[key named differently]", "left", renamed=True)
+lod_join_driver(LP + "inner_join[same-named key]", "inner")
+lod_join_driver(LP + "semi_join", "semi")
+lod_join_driver(LP + "anti_join", "anti")
+lod_join_driver(LP + "anti_join[key named differently]", "anti", renamed=True)
+lod_join_driver(LP + "semi_join[lemma:semi/anti partition]", "full")
+
+
+@driver(LP + "full_join[full_join + aggregate: bounded only]")
+def lod_aggregate_driver(run):
+    ml_ = 4 if run.tier == "thorough" else 3
+    run.bound = f"lists of <= {ml_} items with group keys g in {{None,0,1}} x h in {{0,1}}; group by g and by (g,h); summaries n, list of p, first p"
+    vals = [{"g": g, "h": h} for g in KEYV for h in (0, 1)]
+    def gen():
+        for n in range(ml_ + 1):
+            for combo in itertools.product(range(len(vals)), repeat=n):
+                for by in (("g",), ("g", "h")):
+                    yield [dict(vals[c], p=i) for i, c in enumerate(combo)], list(by)
+    for l, by in run.inputs(gen()):
+        data = mk(l)
+        before = plain(data)
+        got = data.group_by(*by).aggregate(n=len, ps=lambda x: [i.p for i in x], first=lambda x: x[0].p)
+        keys = []
+        for x in l:
+            k = tuple(x[b] for b in by)
+            if k not in keys:
+                keys.append(k)
+        keys.sort(key=lambda k: tuple((v is None, v) for v in k))
+        exp = [dict(zip(by, k), n=len([x for x in l if tuple(x[b] for b in by) == k]),
+                    ps=[x["p"] for x in l if tuple(x[b] for b in by) == k],
+                    first=[x["p"] for x in l if tuple(x[b] for b in by) == k][0]) for k in keys]
+        run.check([l, by], plain(got) == exp and plain(data) == before, expected=exp, got=plain(got), clause="aggregate")
